@@ -4,6 +4,7 @@
 package pl
 
 import (
+	"sync/atomic"
 	"bufio"
 	"encoding/json"
 	"fmt"
@@ -71,17 +72,26 @@ type World struct {
 	FA   *world.FakeAuth
 	Back map[string]*world.Backend
 	Srv  *httptest.Server
+	Both bool // the upstreams have group rules too
 }
+
+var nworlds int64
 
 // NewWorld builds the fixture.
 func NewWorld() (*World, error) {
 	w := &World{Back: map[string]*world.Backend{}}
 	w.FA = world.NewFakeAuth("proxy-client-id", "proxy-client-secret")
 	var y strings.Builder
+	// every second fixture gives the upstreams group rules next to the e-mail rule: "the user passes the upstream's
+	// rules" then also depends on what the group lookup says at the callback
+	w.Both = atomic.AddInt64(&nworlds, 1)%2 == 0
 	for _, h := range []string{hostOwn, hostOther} {
 		b := world.NewBackend(h)
 		w.Back[h] = b
 		fmt.Fprintf(&y, "- service: %s\n  default:\n    from: %s\n    to: %s\n    options:\n      allowed_email_domains:\n        - allowed.test\n", strings.Split(h, ".")[0], h, b.Addr())
+		if w.Both {
+			fmt.Fprintf(&y, "      allowed_groups:\n        - eng\n")
+		}
 	}
 	p, err := world.NewProxy(world.ProxyOpts{UpstreamYAML: y.String(), ProviderURL: w.FA.URL(), HTTPOnly: true})
 	if err != nil {
@@ -224,6 +234,23 @@ func (w *World) RunCell(n int, c Cell, r *rand.Rand) (Line, error) {
 		script["redeem"] = world.Answer{Class: pick(r, "s401", "s400", "s500", "badjson", "closed")}
 	case "unavail":
 		script["redeem"] = world.Answer{Class: pick(r, "s503", "s429")}
+	}
+	if w.Both {
+		// the group lookup made at the callback: it admits nobody the e-mail rule refused (ok_denied stays denied
+		// whatever goes wrong with it) and is not needed by anybody the e-mail rule admits
+		switch {
+		case c.Cell.Code == "ok_denied":
+			script["profile"] = world.Answer{Class: pick(r, "deny", "deny", "s500", "s503", "s429", "s401", "closed", "badjson")}
+			if script["profile"].Class == "deny" {
+				a := script["profile"]
+				a.Groups = [][]string{{}, {"other"}, {"ENG"}}[r.Intn(3)]
+				script["profile"] = a
+			}
+		case r.Intn(2) == 0:
+			script["profile"] = world.Answer{Class: "ok", Groups: []string{"eng"}}
+		default:
+			script["profile"] = world.Answer{Class: pick(r, "deny", "s500", "s503", "closed")}
+		}
 	}
 	if c.Cell.Code != "missing" {
 		q.Set("code", "c0de-"+c.Cell.Code)
